@@ -1,29 +1,53 @@
 //! One module per property.
 use crate::engine::PropertyMeta;
 
+#[cfg(feature = "full")]
 pub mod status_common;
+#[cfg(feature = "full")]
 pub mod execdiff;
+#[cfg(feature = "full")]
 pub mod c01;
+#[cfg(feature = "full")]
 pub mod c02;
 pub mod c03;
+#[cfg(feature = "full")]
 pub mod c04;
+#[cfg(feature = "full")]
 pub mod c05;
+#[cfg(feature = "full")]
 pub mod c06;
 pub mod c07;
 pub mod c08;
+#[cfg(feature = "full")]
 pub mod c09;
+#[cfg(feature = "full")]
 pub mod c10;
+#[cfg(feature = "full")]
 pub mod c11;
 pub mod c12;
+#[cfg(feature = "full")]
 pub mod c13;
+#[cfg(feature = "full")]
 pub mod c14;
+#[cfg(feature = "full")]
 pub mod c15;
+#[cfg(feature = "full")]
 pub mod c16;
+#[cfg(feature = "full")]
 pub mod c17;
+#[cfg(feature = "full")]
 pub mod c18;
 pub mod c19;
 pub mod c20;
 
+#[cfg(feature = "full")]
 pub fn all() -> Vec<PropertyMeta> {
     vec![c01::meta(), c02::meta(), c03::meta(), c04::meta(), c05::meta(), c06::meta(), c07::meta(), c08::meta(), c09::meta(), c10::meta(), c11::meta(), c12::meta(), c13::meta(), c14::meta(), c15::meta(), c16::meta(), c17::meta(), c18::meta(), c19::meta(), c20::meta()]
+}
+
+/// The minimal configuration (scpi without alloc and without unit features) compiles only the
+/// properties whose subject lives in scpi itself and needs neither.
+#[cfg(not(feature = "full"))]
+pub fn all() -> Vec<PropertyMeta> {
+    vec![c03::meta(), c07::meta(), c08::meta(), c12::meta(), c19::meta(), c20::meta()]
 }
